@@ -86,6 +86,17 @@ def check(ctx, report):
             if ifs0 and 'min_byte_num' in ast.unparse(ifs0[-1][0].test):
                 report.sample({'rule': 'C04.R1', 'site': cons, 'verdict': 'reviewed', 'reason': REVIEWED_R1['cryptoparser/common/base.py:ArrayBase._update_items_size']})
                 continue
+        if f.cls is not None and f.cls.name == 'LDAPMessageParsableBase':
+            # the bridge between the ASN.1 library and NotEnoughData: every count it can hand over is decided by evaluating the
+            # bridge against the library's message for short inputs of every magnitude (C04.R6)
+            from ..ldapbridge import evaluate
+            br = evaluate(ctx)
+            if br['evaluated']:
+                if 'count' in br['problems']:
+                    report.add('C04.R1', cons + '@NotEnoughData(%s)' % ast.unparse(payload), br['problems']['count'])
+                else:
+                    report.sample({'rule': 'C04.R1', 'site': cons, 'verdict': 'evaluated', 'reason': 'requested - available for every magnitude of the library message'})
+                continue
         if cons in REVIEWED_R1:
             ok = reviewed_fact(cons, f, call, payload)
             if not ok:
@@ -185,6 +196,7 @@ def framing(ctx, report):
                 report.add('C04.R2', cons + '@gate', 'constant size frame is read without a completeness check')
             continue
         ops = [o for o in flat if isinstance(o, Op) and o.side == 'parse' and o.target is not None]
+        lenkey = declared_length_key(ops, lenkey)
         length_ops = [o for o in ops if o.key == lenkey] if lenkey else []
         if lenkey and not length_ops:
             report.add('C04.R2', cons + '@length[%s]' % lenkey, 'declared length field %s is no longer read' % lenkey)
@@ -270,6 +282,31 @@ def is_ned(check):
         if isinstance(x, Raise) and 'NotEnoughData' in show(x.exc):
             return True
     return False
+
+
+def fields_in(v, depth=0):
+    if depth > 10:
+        return []
+    if isinstance(v, FieldV):
+        return [v.key]
+    if isinstance(v, Sym):
+        return [k for a in v.args for k in fields_in(a, depth + 1)]
+    return []
+
+
+def declared_length_key(ops, key):
+    """the framing table names the element that carries the declared length by its parser key.  When that key is now the key
+    of the *body* (``parse_bytes('payload', 3)`` written as ``parse_numeric('payload_length', 3)`` +
+    ``parse_raw('payload', parser['payload_length'])``) the declared length is the single parsed field the body's size is
+    computed from"""
+    if not key:
+        return key
+    named = [o for o in ops if o.key == key]
+    if named and named[0].prim == 'parse_raw':
+        fs = sorted(set(fields_in(named[0].args.get('size'))))
+        if len(fs) == 1 and any(o.key == fs[0] and o.prim in ('parse_numeric',) for o in ops):
+            return fs[0]
+    return key
 
 
 def mentions_field(v, key, depth=0):
@@ -437,5 +474,11 @@ def ldap_bridge(ctx, report):
                            available, requested, template % (requested, available), 'not recognised' if m is None else 'read as %s' % (got,)))
             break
     report.count('C04.R6')
-    if 'bytes_requested - bytes_available' not in src.replace('(', '').replace(')', ''):
+    from ..ldapbridge import evaluate
+    br = evaluate(ctx)
+    if br['evaluated']:
+        report.count('C04.R6', br['runs'])
+        if 'count' in br['problems']:
+            report.add('C04.R6', f.construct + '@count', 'the count handed to NotEnoughData is not requested - available: %s' % br['problems']['count'])
+    elif 'bytes_requested - bytes_available' not in src.replace('(', '').replace(')', ''):
         report.add('C04.R6', f.construct + '@count', 'the count handed to NotEnoughData is not requested - available')
